@@ -319,7 +319,7 @@ theorem bodyStep_eoi {s : Str} (h : bodyStep s = .eoi) : s = [] := by
   · repeat' split at h
     all_goals first | (cases h; done) | rfl
 
-theorem bodyStep_atom_inv {s : Str} {b : BondKind} {k : AtomKind} {rest : Str} (h : bodyStep s = .atom b k rest) :
+theorem bnf_bodyStep_atom_inv {s : Str} {b : BondKind} {k : AtomKind} {rest : Str} (h : bodyStep s = .atom b k rest) :
     (readBond s).1 = b ∧ readAtom (readBond s).2 = .ok k rest := by
   unfold bodyStep unionStep at h
   split at h
@@ -330,7 +330,7 @@ theorem bodyStep_atom_inv {s : Str} {b : BondKind} {k : AtomKind} {rest : Str} (
     all_goals (repeat' split at h)
     all_goals cases h
 
-theorem bodyStep_ring_inv {s : Str} {b : BondKind} {n : Rnum} {rest : Str} (h : bodyStep s = .ring b n rest) :
+theorem bnf_bodyStep_ring_inv {s : Str} {b : BondKind} {n : Rnum} {rest : Str} (h : bodyStep s = .ring b n rest) :
     (readBond s).1 = b ∧ readRnum (readBond s).2 = .ok n rest := by
   unfold bodyStep unionStep at h
   split at h
@@ -398,14 +398,14 @@ theorem run_ok_goal (mode : Mode) (stack : List Nat) (s : Str) :
     exact ⟨r, .cons (.split hd) .nil, ho⟩
   case case13 stack s b k rest h q ih =>
     obtain ⟨r, hb, ho⟩ := ih (bump_ne _) hok
-    obtain ⟨h1, h2⟩ := bodyStep_atom_inv h
+    obtain ⟨h1, h2⟩ := bnf_bodyStep_atom_inv h
     refine ⟨r, .cons ?_ .nil, owed_bump hne ho⟩
     rcases readBond_cases s with ⟨_, e2⟩ | hbs
     · rw [e2] at h2; exact .union (.smiles h2 hb)
     · exact .unionBond hbs (.smiles h2 hb)
   case case14 stack s b n rest h q ih =>
     obtain ⟨r, hb, ho⟩ := ih hne hok
-    obtain ⟨h1, h2⟩ := bodyStep_ring_inv h
+    obtain ⟨h1, h2⟩ := bnf_bodyStep_ring_inv h
     refine ⟨r, .cons ?_ hb, ho⟩
     rcases readBond_cases s with ⟨_, e2⟩ | hbs
     · rw [e2] at h2; exact .ring h2
